@@ -60,6 +60,7 @@ struct Parsers {
     stdlib: Parser,
     full: Parser,
     empty: Parser,
+    jekyll: Parser,
 }
 
 impl Parsers {
@@ -68,6 +69,7 @@ impl Parsers {
             Config::Stdlib => &self.stdlib,
             Config::Full => &self.full,
             Config::Empty => &self.empty,
+            Config::Jekyll => &self.jekyll,
         }
     }
 }
@@ -122,6 +124,7 @@ pub fn run(ctx: &mut Ctx) {
         stdlib: parser(Config::Stdlib),
         full: parser(Config::Full),
         empty: parser(Config::Empty),
+        jekyll: parser(Config::Jekyll),
     };
     ctx.start_watchdog(60);
     token_enumeration(ctx, &ps);
@@ -131,8 +134,154 @@ pub fn run(ctx: &mut Ctx) {
     mutations(ctx, &ps);
     rejection(ctx, &ps);
     from_files(ctx, &ps);
+    jekyll_include(ctx, &ps);
+    contexts_wellformed(ctx, &ps);
+    tag_arguments(ctx, &ps);
     ctx.extra.insert("token_alphabet".into(), json!(TOKENS.len()));
     ctx.extra.insert("element_alphabet".into(), json!(ELEMENTS.len()));
+}
+
+fn contexts_wellformed(ctx: &mut Ctx, ps: &Parsers) {
+    for (pre, post) in CONTEXTS {
+        for body in ["", "x", "{{ a }}", "{% assign q = 1 %}"] {
+            let text = format!("{pre}{body}{post}");
+            if observe(ctx, ps, Config::Stdlib, &text, "context-wellformed") != Outcome::Ok {
+                ctx.violation("context:wellformed-rejected", &format!("well-formed block rejected: {text:?}"), || json!({"kind": "parse", "config": "stdlib", "text": text}));
+            }
+        }
+    }
+}
+
+/// argument atoms for the per-tag argument enumeration: whole values (plain, dotted and indexed
+/// variables, literals, ranges), separators, keywords and filter applications
+const ARG_ATOMS: &[&str] = &[
+    "x", "x.y", "x[0]", "x['k'].z", "'s'", "1", "-2.5", "true", "nil", "(1..3)", "(x..y.z)", ":", ",", "=", "in", "| f", "| upcase", "| append: x.y",
+    "==", "contains", "and", "or", "with", "as", "for", "limit:", "offset:", "cols:", "reversed", "g:", "x.y:", "x[0]:", "'q':", "é",
+];
+
+/// every stdlib tag / block keyword with every argument list of up to N atoms (totality of the
+/// argument parsers: plain, dotted and indexed variables where a name or a literal is expected, ...)
+fn tag_arguments(ctx: &mut Ctx, ps: &Parsers) {
+    const TAGS: &[(&str, &str, &str)] = &[
+        ("assign", "", ""), ("increment", "", ""), ("decrement", "", ""), ("cycle", "", ""), ("include", "", ""), ("render", "", ""), ("break", "", ""), ("continue", "", ""),
+        ("if", "", "{% endif %}"), ("unless", "", "{% endunless %}"), ("elsif", "{% if a %}", "{% endif %}"), ("else", "{% if a %}", "{% endif %}"),
+        ("for", "", "{% endfor %}"), ("tablerow", "", "{% endtablerow %}"), ("capture", "", "{% endcapture %}"), ("case", "", "{% when 1 %}{% endcase %}"),
+        ("when", "{% case a %}", "{% endcase %}"), ("ifchanged", "", "{% endifchanged %}"), ("raw", "", "{% endraw %}"), ("comment", "", "{% endcomment %}"),
+        ("endif", "{% if a %}", ""), ("endfor", "{% for i in a %}", ""), ("endcase", "{% case a %}{% when 1 %}", ""),
+    ];
+    let l = ctx.scale(3usize, 4usize);
+    let n = ARG_ATOMS.len();
+    for len in 0..=l {
+        let total = n.pow(len as u32);
+        let mut idx = vec![0usize; len];
+        for _ in 0..total {
+            let args: Vec<&str> = idx.iter().map(|&i| ARG_ATOMS[i]).collect();
+            let joined = args.join(" ");
+            if ctx.mine(hash_str(&joined)) {
+                for (tag, pre, post) in TAGS {
+                    let text = format!("{pre}{{% {tag} {joined} %}}{post}");
+                    let o = observe(ctx, ps, Config::Stdlib, &text, "tag-argument-enum");
+                    sample_case(ctx, Config::Stdlib, &text, o);
+                    if len <= 2 {
+                        // the same tag inside a comment (parsed for side effects, errors ignored) and under the other configurations
+                        observe(ctx, ps, Config::Stdlib, &format!("{{% comment %}}{text}{{% endcomment %}}"), "tag-argument-enum-in-comment");
+                        observe(ctx, ps, Config::Jekyll, &text, "tag-argument-enum-jekyll");
+                    }
+                }
+                // output expressions built from the same atoms
+                let text = format!("{{{{ {joined} }}}}");
+                observe(ctx, ps, Config::Stdlib, &text, "output-argument-enum");
+            }
+            for k in (0..len).rev() {
+                idx[k] += 1;
+                if idx[k] < n {
+                    break;
+                }
+                idx[k] = 0;
+            }
+        }
+    }
+    ctx.extra.insert("tag_argument_atoms".into(), json!(ARG_ATOMS.len()));
+    ctx.extra.insert("tag_argument_max_len".into(), json!(l));
+}
+
+/// argument tokens of the jekyll-style `{% include name k=v ... %}` tag (configuration `jekyll`)
+const JEKYLL_ARGS: &[&str] = &[
+    "p", "p.html", "'p'", "\"p q\"", "a", "b", "=", "1", "-2.5", "'v'", "x.y", "x[0]", "|", "upcase", ":", ",", "é", "==", "true", "nil", "..", "(", ")", "99999999999999999999",
+];
+
+/// every argument list of up to N tokens for the jekyll include tag, alone and between other
+/// elements: totality; and its definite faults (no name; `k=` without a value; a value without `=`;
+/// `=v` without a key) must be rejected wherever they stand
+fn jekyll_include(ctx: &mut Ctx, ps: &Parsers) {
+    let l = ctx.scale(3usize, 4usize);
+    let n = JEKYLL_ARGS.len();
+    for len in 0..=l {
+        let total = n.pow(len as u32);
+        let mut idx = vec![0usize; len];
+        for _ in 0..total {
+            let args: Vec<&str> = idx.iter().map(|&i| JEKYLL_ARGS[i]).collect();
+            for (pre, post) in [("", ""), ("{% if x %}", "{% endif %}"), ("{% for i in a %}{{ i }}", "{% endfor %}tail")] {
+                for sep in [" ", ""] {
+                    let text = format!("{pre}{{% include {} %}}{post}", args.join(sep));
+                    if ctx.mine(hash_str(&text)) {
+                        let o = observe(ctx, ps, Config::Jekyll, &text, "jekyll-include-enum");
+                        sample_case(ctx, Config::Jekyll, &text, o);
+                    }
+                    if len < 2 {
+                        break;
+                    }
+                }
+                if len == l {
+                    break;
+                }
+            }
+            for k in (0..len).rev() {
+                idx[k] += 1;
+                if idx[k] < n {
+                    break;
+                }
+                idx[k] = 0;
+            }
+        }
+    }
+    const FAULTS: &[(&str, &str)] = &[
+        ("jekyll-include-without-name", "{% include %}"),
+        ("jekyll-include-key-without-value", "{% include p.html a= %}"),
+        ("jekyll-include-key-without-value-after-a-pair", "{% include p.html a=1 b= %}"),
+        ("jekyll-include-value-without-equals", "{% include p.html a 1 %}"),
+        ("jekyll-include-value-without-key", "{% include p.html =1 %}"),
+        ("jekyll-include-literal-as-key", "{% include p.html 'a'=1 %}"),
+        ("jekyll-include-number-as-key", "{% include p.html 1=1 %}"),
+        ("jekyll-include-colon-instead-of-equals", "{% include p.html a: 1 %}"),
+        ("jekyll-include-doubled-equals", "{% include p.html a==1 %}"),
+        ("jekyll-include-trailing-comma", "{% include p.html a=1, %}"),
+        ("jekyll-include-unterminated-string-value", "{% include p.html a='v %}"),
+        ("jekyll-include-unclosed-tag", "{% include p.html a=1"),
+    ];
+    for (name, fault) in FAULTS {
+        for (pre, post) in [("", ""), ("text {{ x }}", "{{ y }}"), ("{% if x %}", "{% endif %}"), ("{% for i in a %}", "{% else %}e{% endfor %}"), ("{% capture c %}", "{% endcapture %}{{ c }}")] {
+            let text = format!("{pre}{fault}{post}");
+            let o = observe(ctx, ps, Config::Jekyll, &text, "jekyll-include-fault");
+            ctx.count(&format!("fault:{name}"));
+            if o == Outcome::Ok {
+                ctx.violation(
+                    &format!("accepted-invalid:{name}"),
+                    &format!("text with a definite fault ({name}) was accepted under the jekyll configuration: {text:?}"),
+                    || json!({"kind": "parse", "config": "jekyll", "text": text}),
+                );
+            }
+        }
+    }
+    // the well-formed spellings must be accepted (guards the fault list against a parser that rejects everything)
+    for good in ["{% include p.html %}", "{% include 'p' %}", "{% include p.html a=1 %}", "{% include p.html a=1 b='v' c=x.y %}", "{% include p a = 1 %}"] {
+        let o = observe(ctx, ps, Config::Jekyll, good, "jekyll-include-wellformed");
+        if o == Outcome::Err {
+            ctx.violation("jekyll-include:wellformed-rejected", &format!("well-formed jekyll include rejected: {good:?}"), || {
+                json!({"kind": "parse", "config": "jekyll", "text": good})
+            });
+        }
+    }
 }
 
 /// `Parser::parse_file`: the same verdict as `parse` on the file's text; a missing file and a file
@@ -456,6 +605,25 @@ fn mutations(ctx: &mut Ctx, ps: &Parsers) {
     }
 }
 
+/// block bodies in which a body element may stand: (text before, text after); each is accepted with
+/// an innocuous body (checked at start-up by `contexts_wellformed`)
+const CONTEXTS: &[(&str, &str)] = &[
+    ("{% if a %}", "{% endif %}"),
+    ("{% if a %}t{% else %}", "{% endif %}"),
+    ("{% if a %}t{% elsif b %}", "{% else %}e{% endif %}"),
+    ("{% unless a %}", "{% endunless %}"),
+    ("{% unless a %}t{% else %}", "{% endunless %}"),
+    ("{% for i in a %}", "{% endfor %}"),
+    ("{% for i in a %}t{% else %}", "{% endfor %}"),
+    ("{% tablerow i in a %}", "{% endtablerow %}"),
+    ("{% capture q %}", "{% endcapture %}"),
+    ("{% ifchanged %}", "{% endifchanged %}"),
+    ("{% case a %}", "{% when 1 %}w{% endcase %}"),
+    ("{% case a %}{% when 1 %}", "{% endcase %}"),
+    ("{% case a %}{% when 1 %}w{% when 2, 3 %}", "{% else %}e{% endcase %}"),
+    ("{% case a %}{% when 1 %}w{% else %}", "{% endcase %}"),
+];
+
 /// Faults whose invalidity is known by construction; (name, text, must_be_last)
 const FAULTS: &[(&str, &str, bool)] = &[
     ("unknown-tag", "{% nosuchtag %}", false),
@@ -634,6 +802,30 @@ fn rejection(ctx: &mut Ctx, ps: &Parsers) {
                     &format!("text with a definite fault ({name}) was accepted"),
                     || json!({"kind": "parse", "config": "stdlib", "text": text, "fault": name}),
                 );
+            }
+        }
+        // faults that are invalid wherever a body element may stand are also placed inside every
+        // kind of block body (incl. the slot of a `case` before its first `when`, after `else`,
+        // two blocks deep): the enclosing block must not swallow the error
+        if i % 4 == 0 {
+            for (name, fault, last) in FAULTS {
+                if *last || ["unclosed-", "stray-", "unterminated-"].iter().any(|p| name.starts_with(p)) {
+                    continue;
+                }
+                for (ci, (pre, post)) in CONTEXTS.iter().enumerate() {
+                    let (pre2, post2) = CONTEXTS[(ci * 7 + i as usize) % CONTEXTS.len()];
+                    for text in [format!("{pre}{fault}{post}"), format!("{pre2}x{pre}y{fault}{post}{post2}"), format!("{pre}{pre2}{fault}z{post2}{post}")] {
+                        let o = observe(ctx, ps, Config::Stdlib, &text, "definite-fault-in-context");
+                        ctx.count(&format!("fault:{name}"));
+                        if o == Outcome::Ok {
+                            ctx.violation(
+                                &format!("accepted-invalid:{name}"),
+                                &format!("text with a definite fault ({name}) inside a block body was accepted: {text:?}"),
+                                || json!({"kind": "parse", "config": "stdlib", "text": text, "fault": name}),
+                            );
+                        }
+                    }
+                }
             }
         }
         // out-of-range integer literal: error, or accepted (then it must denote a float; C07/C12 check the value)
